@@ -246,7 +246,28 @@ class E1:
                 if isinstance(y, tuple) and y[0] == "call" and y[1].rsplit("::", 1)[-1] == "min" and len(y[2]) == 2:
                     more.append((r[0], r[1], y[2][0]))
                     more.append((r[0], r[1], y[2][1]))
+        # x <= f(args) with f a crate function that is one expression of its parameters (`Self::remaining(self)` of the Cursor impl):
+        # the bound is that expression
+        for r in out:
+            if r[0] in ("le", "lt", "eq"):
+                y = uncast(r[2])
+                ex = self.expand_local_call(y)
+                if ex is not None:
+                    more.append((r[0], r[1], ex))
         return out + more
+
+    def expand_local_call(self, y):
+        if not (isinstance(y, tuple) and y and y[0] == "call"):
+            return None
+        l = self.facts.by_id.get(y[1], [])
+        if len(l) != 1 or l[0].arg_count != len(y[2]) or l[0].safety != "safe":
+            return None
+        from .flow import return_expr, contains
+        from .logic import subst
+        re_ = canon(return_expr(l[0], self.facts, inline=True))
+        if re_ is None or contains(re_, ("unknown", "phi", "icall")):
+            return None
+        return canon(subst(re_, {i + 1: a for i, a in enumerate(y[2])}))
 
     def le_holds(self, small, big, rels):
         small, big = strip(small), strip(big)
